@@ -244,6 +244,7 @@ class PixCoord:
         cosa, sina = np.cos(angle), np.sin(angle)
         rotation_matrix = np.array([[cosa, -sina], [sina, cosa]])
 
-        vec = np.matmul(rotation_matrix, vec)
+        # contract over the (x, y) axis only, for coordinates of any shape
+        vec = np.tensordot(rotation_matrix, vec, axes=1)
 
         return self.__class__(center.x + vec[0], center.y + vec[1])
